@@ -102,6 +102,7 @@ func runC01(r *Run, rng *Rng, thorough bool) {
 	r.extra["conformant_cases"] = nValid
 	r.extra["nonconformant_cases"] = nInvalid
 	extValidate(r, rng, map[bool]int{false: 300, true: 6000}[thorough])
+	surfaceValidators(r, rng, map[bool]int{false: 400, true: 20000}[thorough])
 }
 
 // wantVal: the value getter g must return on a conformant claim.
@@ -249,4 +250,5 @@ func runC13(r *Run, rng *Rng, thorough bool) {
 		}
 	})
 	runFilterCases(r, rng, thorough)
+	surfaceValidators(r, rng, map[bool]int{false: 400, true: 20000}[thorough])
 }
